@@ -127,6 +127,26 @@ func execute(t *testing.T, c Case) (kind, detail string) {
 			other.Resume()
 		case "race":
 			closer.WriteThenClose(data)
+		case "halfclose-stalled":
+			// the closing end has stopped reading while the other end's data towards it exceeds
+			// every buffer; it writes its data and closes its sending direction only
+			closer.Pause()
+			big := 2 << 20
+			if c.Carrier == "dns" {
+				big = 96 << 10
+			}
+			other.StartWrite(world.Payload(0x31, 0, big))
+			step()
+			if c.N > 0 {
+				closer.StartWrite(data)
+			}
+			step()
+			if c.Carrier == "dns" {
+				for i := 0; i < 400 && other.Obs().Got < c.N; i++ {
+					bubble.Advance(10 * time.Second)
+				}
+			}
+			closer.C.CloseWrite()
 		}
 		bubble.Wait()
 		hz := 5 * time.Second
@@ -220,9 +240,12 @@ func cases(thorough bool) []Case {
 				if x.carrier == "dns" && n > 40000 && !thorough {
 					continue
 				}
-				for _, pos := range []string{"consumed", "paused", "race"} {
+				for _, pos := range []string{"consumed", "paused", "race", "halfclose-stalled"} {
 					if pos == "paused" && n > 40000 {
 						continue // the Write would not return while the receiver is paused
+					}
+					if pos == "halfclose-stalled" && (n > 40000 || n == 4096) {
+						continue
 					}
 					for _, other := range []string{"none", "idle", "busy"} {
 						if other == "busy" && !thorough && x.sec != "plain" {
